@@ -79,13 +79,18 @@ func Weight(v string) uint64 {
 type Shared bool
 
 func (s Shared) value(class string, key int) string {
+	if len(class) == 1 && class[0] >= 'A' && class[0] <= 'Z' {
+		// an upper-case class is the lower-case value WITHOUT the key's index: the same content under every key
+		// that uses it (used by single contents of C12; the alphabets keep values distinct per key)
+		return Shared(true).value(strings.ToLower(class), key)
+	}
 	v := class
 	if !s {
 		v = fmt.Sprintf("%s%d", class, key)
 	}
 	if class == "b" {
-		// the heavy class is also long: longer than a hash, longer than hash+weight
-		v += "-0123456789abcdef0123456789abcdef0123456789abcdef"
+		// the heavy class is also long: longer than a hash (32), than hash+weight (40), than 64 and than 128 bytes
+		v += "-0123456789abcdef0123456789abcdef0123456789abcdef" + strings.Repeat("0123456789abcdef", 6)
 	}
 	return v
 }
@@ -338,10 +343,12 @@ func (w *World) Apply(o Op) (fail string) {
 			return fmt.Sprintf("batch.Commit: %v", err)
 		}
 		w.Commits = append(w.Commits, commitPoint{logLen: w.S.Len(), madeAt: w.S.Len(), root: w.M.Root(), weight: w.M.Total(), m: w.M.Clone()})
+		if w.Pending {
+			w.SinceChk++ // a commit with nothing to commit (a retried or periodic one) is not "the" commit after the checkpoint
+		}
 		w.Pending = false
 		w.PendingViaFault = false
 		w.GCPending = 0
-		w.SinceChk++
 	case 'G':
 		if err := w.T.DeleteNodes(); err != nil {
 			return fmt.Sprintf("DeleteNodes: %v", err)
